@@ -19,7 +19,7 @@ def parse_results(paths):
         if not os.path.exists(p):
             continue
         cur = None
-        for line in open(p):
+        for line in open(p, errors="replace"):
             m = re.match(r"=== (C\d+) patch(\d)", line)
             if m:
                 cur = (m.group(1), int(m.group(2)))
